@@ -22,7 +22,7 @@ def c01(ctx):
     _g(ctx, form.run, SET4, 'safe')
     _g(ctx, wire.run, rows=False, arrays=False)
     _g(ctx, cand.run, unique=False, provenance=False)
-    _g(ctx, once.run, extrema=True)
+    _g(ctx, once.run, extrema=True, caches=True)
     _g(ctx, order.run)
     _g(ctx, split.run)
     _g(ctx, missempty.run, empty=False)
@@ -46,7 +46,7 @@ def c03(ctx):
     _g(ctx, verify.run, kinds=['edit'], window=True)
     _g(ctx, wire.run, rows=False, arrays=False)
     _g(ctx, cand.run, window=False, prune=False, consume=False)
-    _g(ctx, once.run, which=['row_id', 'order_idx', 'table_index'])
+    _g(ctx, once.run, which=['row_id', 'order_idx', 'table_index'], caches=True)
     _g(ctx, order.run)
     _g(ctx, split.run)
     _g(ctx, missempty.run, empty=False)
@@ -59,7 +59,7 @@ def c04(ctx):
     _g(ctx, cand.run, sizes=True)
     _g(ctx, order.run)
     _g(ctx, mask.run, candset=True)
-    _g(ctx, once.run, extrema=True, pairpos=True, appends='filter')
+    _g(ctx, once.run, extrema=True, pairpos=True, appends='filter', caches=True)
     _g(ctx, suffix.run)
     _g(ctx, split.run)
     _g(ctx, effect.run, mutations=False, globals_=True, labels=False)
